@@ -61,7 +61,9 @@ def _pos(doc):
         if name == "text" and prev_name == "fcode-block" and t.token_text and t.token_text[0] not in " \n\t\\&\x05\x07\x08" and ord(t.token_text[0]) < 128:
             # the content of a fenced block: the token points at its first character - or, when the fence itself is indented,
             # at the start of the indentation that is taken off the content lines
-            spec = ("chars", t.token_text[0]) if not fence_ws else ("chars-after-spaces", t.token_text[0])
+            # (the same when the first content line has leading spaces of its own: they are content, the token points at them)
+            own_ws = (getattr(t, "extracted_whitespace", "") or "").split("\n")[0]
+            spec = ("chars", t.token_text[0]) if not fence_ws and not own_ws else ("chars-after-spaces", t.token_text[0])
         prev_name = name
         if name == "fcode-block":
             fence_ws = len(getattr(t, "extracted_whitespace", "") or "")
@@ -106,8 +108,47 @@ def enc(doc, toks, tabs=False):
     return " ".join(parts)
 
 
+def _tab_call(jobs):
+    from pymarkdown.general.tab_helper import TabHelper
+    out = []
+    for s, d in jobs:
+        try:
+            out.append((TabHelper.detabify_string(s, d), TabHelper.calculate_length(s, d)))
+        except BaseException as e:  # noqa
+            out.append(("EXC:" + type(e).__name__, -1))
+    return out
+
+
+def _tabs(ctx):
+    """the tab kernel: TabHelper.detabify_string / calculate_length vs Model/Tabs.v detab_impl / calc_length on every string over
+    {a, b, space, tab} up to a length, from every starting column 0..5; and the property on the implementation: the result
+    has no tab and is as long as calculate_length says"""
+    import itertools
+    if "Model/Tabs.v" not in ctx.build.ok_files:
+        return
+    n = 5 if ctx.tier == "quick" else 7
+    strs = [""] + ["".join(t) for k in range(1, n + 1) for t in itertools.product("ab \t", repeat=k) if "\t" in t]
+    strs += ["ab  c", "no tabs here", "\t" * 9, " \t  \t   \t    \tx", "a" * 17 + "\t" + "b" * 5 + " \t"]
+    jobs = [(s, d) for s in strs for d in range(6)]
+    got = [r for ch in impl.pmap(_tab_call, [jobs[i:i + 1000] for i in range(0, len(jobs), 1000)], chunksize=1) for r in ch]
+    defs = ("Definition obs (sd : str * N) := (detab_impl (fst sd) (snd sd), calc_length (fst sd) (snd sd)).\n"
+            "Definition obs_eqb (a b : option str * N) := match fst a, fst b with Some x, Some y => str_eqb x y | None, None => true | _, _ => false end && N.eqb (snd a) (snd b).\n")
+    cases = []
+    for (s, d), (t, ln) in zip(jobs, got):
+        ctx.count(1, "tabs/kernel")
+        cases.append((f"({core.cstr(s)}, {d}%N)", f"({'None' if t.startswith('EXC:') else '(Some ' + core.cstr(t) + ')'}, {max(ln, 0)}%N)"))
+        if not t.startswith("EXC:") and ("\t" in t or len(t) != ln):
+            ctx.violation("tabs", {"text": s, "start": d}, f"detabify_string gives {t!r} (length {len(t)}), calculate_length {ln}", group="tabs")
+    bad = core.coq_mismatches(["PV.Base.Str", "PV.Model.Tabs"], defs, "obs", cases, "c05tab", eqb="obs_eqb", shard=1000)
+    ctx.corr_cases += len(cases)
+    for i in bad[:5]:
+        ctx.broke(f"model/implementation correspondence (Model/Tabs.v detab_impl / calc_length) differs on {jobs[i]!r}: implementation {got[i]!r}")
+    ctx.unit("tabs", strings=len(strs), cases=len(jobs))
+
+
 def run(ctx):
-    ctx.prove("Props/C05.v", ["Model/Pos.v", "Proofs/PosProofs.v", "Extract/Extract.v"])
+    ctx.prove("Props/C05.v", ["Model/Pos.v", "Proofs/PosProofs.v", "Model/Tabs.v", "Proofs/TabsProofs.v", "Extract/Extract.v"])
+    _tabs(ctx)
     sp = c04.spaces(ctx)
     sp.pop("emphasis-runs(7)", None)
     mi = list(gen.uniq(list(multi_inline()) + list(hard_break_then_multiline())))
